@@ -142,6 +142,17 @@ func observeLive(st *state.StateDB, o Obs) {
 		o[p+"codesize"] = fmt.Sprint(st.GetCodeSize(a))
 		o[p+"suicided"] = fmt.Sprint(st.HasSuicided(a))
 		o[p+"ndelegations"] = fmt.Sprint(st.GetCountOfDelegateTo(a))
+		// the delegator's own list of validators (kept beside the account, addressed by
+		// DelegationsHash) as the staking module reads it
+		if dtos, err := st.GetDelegationsFrom(a); err != nil {
+			o[p+"delegations"] = "error: " + err.Error()
+		} else {
+			var ds []string
+			for _, d := range dtos {
+				ds = append(ds, fmt.Sprintf("%s:%s/%s", nm(d.Validator), bigStr(d.Token), bigStr(d.Stake)))
+			}
+			o[p+"delegations"] = strings.Join(ds, ",")
+		}
 		for s := 0; s < nSlots; s++ {
 			k := common.BigToHash(big.NewInt(int64(s)))
 			o[fmt.Sprintf("%sstate%d", p, s)] = st.GetState(a, k).Hex()
